@@ -81,9 +81,17 @@ def gen_shape(rng, auto):
     # overridden states: a base-class variant (never to be called) exists in a lower layer
     overridden = [s for s in states if layer[s] > 0 and rng.random() < 0.4]
     byobj = rng.random() < 0.3    # pass state objects instead of names to engage/next_state
+    def pick_basevar(s):
+        opts = ["same", "otherdur", "fliptimed", "flipmf"]
+        if s != first:
+            opts += ["flipfirst", "asdefault"]
+        return rng.choice(opts)
     extra = {"sigs": sigs, "layer": layer, "nlayers": nlayers, "overridden": overridden, "byobj": byobj,
              "twin": rng.random() < 0.35,
-             "basevar": {s: rng.choice(["same", "otherdur", "fliptimed"]) for s in overridden if s != default}}
+             "basevar": {s: pick_basevar(s) for s in overridden if s != default},
+             # three layers may form a diamond A; B(A); C(A); D(B, C): "side" says where a middle-layer member lives
+             "hier": "diamond" if nlayers == 3 and rng.random() < 0.5 else "linear",
+             "side": {s: rng.choice(["B", "C"]) for s in states}}
     return shape, extra
 
 
@@ -135,6 +143,12 @@ class Machine:
                 dur = dur + 3
             elif basevar == "fliptimed":
                 dur = 4 if dur == -1 else -1
+            elif basevar == "flipmf":
+                is_mf = not is_mf
+            elif basevar == "flipfirst":
+                is_first = True
+            elif basevar == "asdefault":
+                return default_state(fn)
             if dur != -1:
                 nx = shape["nextOf"][s]
                 if basevar == "fliptimed":
@@ -148,25 +162,42 @@ class Machine:
 
         base = AutonomousStateMachine if shape["auto"] else StateMachine
         nl = extra["nlayers"]
-        cls = base
-        for ly in range(nl):
+        diamond = extra.get("hier") == "diamond" and nl == 3
+        side = extra.get("side", {})
+
+        def members(ly, only_side=None):
             ns = {}
             for s in shape["states"]:
-                if extra["layer"][s] == ly:
+                sd = side.get(s, "B")
+                if extra["layer"][s] == ly and (only_side is None or sd == only_side):
                     ns[s] = decorate(s, mkfn(s, extra["sigs"][s], "ok"), uid % 2)
-                elif s in extra["overridden"] and extra["layer"][s] - 1 == ly:
+                elif s in extra["overridden"] and extra["layer"][s] - 1 == ly and (only_side is None or sd == only_side):
                     # base-class variant that the subclass overrides: same decorator arguments,
                     # different body; it must never run
                     ns[s] = decorate(s, mkfn(s, list(PARAMS), "base"), 1, extra.get("basevar", {}).get(s, "same"))
-            if ly == nl - 1:
-                def done(self_):
-                    base.done(self_)
-                    if self_ is drv.sm:
-                        drv.cb.append({"e": "done"})
-                        if drv.depth > 0:
-                            drv.stopped_in_iter = True
-                ns["done"] = done
-            cls = type("M%d_L%d" % (uid, ly), (cls,), ns)
+            return ns
+
+        def with_done(ns):
+            def done(self_):
+                base.done(self_)
+                if self_ is drv.sm:
+                    drv.cb.append({"e": "done"})
+                    if drv.depth > 0:
+                        drv.stopped_in_iter = True
+            ns["done"] = done
+            return ns
+        if diamond:
+            A = type("M%d_A" % uid, (base,), members(0))
+            B = type("M%d_B" % uid, (A,), members(1, "B"))
+            C = type("M%d_C" % uid, (A,), members(1, "C"))
+            cls = type("M%d_D" % uid, (B, C), with_done(members(2)))
+        else:
+            cls = base
+            for ly in range(nl):
+                ns = members(ly)
+                if ly == nl - 1:
+                    with_done(ns)
+                cls = type("M%d_L%d" % (uid, ly), (cls,), ns)
         self.cls = cls
         self.sm = cls()
         self.sm.logger = logging.getLogger("verif.sm")      # the framework injects a logger
@@ -373,8 +404,23 @@ class RandomSource:
                     if self.style == "steady":
                         yield {"e": "tick", "d": self.period}
             return
+        E = {"e": "engage", "init": "none", "force": False}
+        X = {"e": "execute"}
+        motifs = [
+            [E, {"e": "done"}, X, {"e": "tick", "d": 3}, E, X],                 # a request withdrawn before it was served
+            [E, X, {"e": "done"}, X, {"e": "tick", "d": 1}, E, X],
+            [dict(E, force=True), X, dict(E, force=True), X],
+            [{"e": "disable"}, X, E, X],
+            [E, dict(E, init=rng.choice(self.nondef)), X],
+            [E, X, {"e": "tick", "d": 2}, X, {"e": "tick", "d": 2}, X, E, X],   # the request lapses, then comes back
+            [E, E, X, X],
+        ]
         for _ in range(self.n):
             r = rng.random()
+            if rng.random() < 0.06:
+                for ev in rng.choice(motifs):
+                    yield dict(ev)
+                continue
             if self.style == "steady":
                 # engage + execute + fixed period, with occasional disturbances
                 if r < 0.80:
